@@ -5,10 +5,18 @@
 //! testbed --c09-child <scenario> --certs <dir>              (child: single-threaded runtime + heartbeat)
 
 use vharness::common::{env_seed, Args, StageReport};
-use vharness::testbed::{self, c03, c04, c07, c11, c12, c15, c16, c17, l3routers};
+use vharness::common::alloc::Counting;
+use vharness::testbed::{self, c03, c04, c06, c07, c11, c12, c15, c16, c17, l3routers};
+
+#[global_allocator]
+static GLOBAL: Counting = Counting;
 
 fn main() {
     let args = Args::from_env();
+    if args.flag("c06-l3-child") {
+        c06::child_main(args.num("seed", 1), args.num("n", 100), &args.get_or("child-out", "/dev/null"));
+        return;
+    }
     if args.flag("serve") {
         c16::serve_main(&args.get_or("certs", ""), &args.get_or("addr-file", ""));
         return;
@@ -30,6 +38,7 @@ fn main() {
         "C02" => l3routers::run_c02(&mut rep, &tier, seed),
         "C03" => c03::run(&mut rep, &tier, seed),
         "C04" => c04::run(&mut rep, &tier, seed),
+        "C06" => c06::run(&mut rep, &tier, seed, &exe),
         "C07" => c07::run(&mut rep, &tier, seed),
         "C09" => l3routers::run_c09(&mut rep, &tier, seed, &exe),
         "C10" => l3routers::run_c10(&mut rep, &tier, seed),
